@@ -744,6 +744,14 @@ func (*c14) Generate(r *rand.Rand, _ int) any {
 		t.Values = g.vals(t, 0)
 	}
 	g.schemas(t, true)
+	var noCRDs func(c *vChart)
+	noCRDs = func(c *vChart) {
+		c.CRDs = false
+		for _, s := range c.Charts {
+			noCRDs(s)
+		}
+	}
+	noCRDs(t) // C14 places crds/ with its own (lower) rates
 	if r.Intn(8) == 0 {
 		t.CRDs = true
 	}
